@@ -684,7 +684,9 @@ PROPS = {
                        "on accepted values rdlen() == number of octets compose_rdata() appends, the octets are the fields in wire "
                        "order, and compose_canonical_rdata() appends the same octets (these are the wire forms the C04 unit "
                        "nsec3order orders by); the same for Nsec3param with its length-prefixed salt (Nsec3Salt::{salt_len, "
-                       "compose_len, compose}). Unit rdparse (rdata/dnssec.rs, rdata/cds.rs): Dnskey, Ds, Cdnskey and Cds::parse accept exactly the "
+                       "compose_len, compose}). Unit rdparse (rdata/dnssec.rs, rdata/cds.rs, rdata/nsec3.rs): Nsec3Salt::parse reads one length octet and that many octets, "
+                       "Nsec3param::parse the four fixed octets and the salt, with the wire form of the value == the octets consumed; "
+                       "Dnskey, Ds, Cdnskey and Cds::parse accept exactly the "
                        "record data of 4..=65535 octets, consume all of it, and return a value that satisfies the type invariant rdlen() and "
                        "compose_rdata() rely on and whose wire form -- the same spec function the composing side is verified against -- is "
                        "the octets read; lemmas: the layouts are injective, so parse(compose(x)) has the fields of x and "
